@@ -507,6 +507,7 @@ fn size_of(ty: &str) -> usize {
 
 struct Gen<'a> {
     rng: &'a mut Rng,
+    ty: &'static str,
     c: usize,
     rows: [usize; NREG], // tracked to generate mostly-valid indices
     ops: Vec<ROp>,
@@ -541,9 +542,22 @@ impl<'a> Gen<'a> {
         self.ops.push(op);
     }
 
+    /// a cell value the element type represents exactly: mostly small, sometimes an extreme
+    fn val(&mut self) -> i64 {
+        if self.rng.chance(4, 5) {
+            return self.rng.range(0, 200);
+        }
+        match self.ty {
+            "u8" => *self.rng.pick(&[255i64, 128, 254, 1]),
+            "u32" => *self.rng.pick(&[4294967295i64, 2147483648, 65536, 16843009]),
+            "f32" => *self.rng.pick(&[-1i64, 16777216, -16777216, -200]),
+            _ => *self.rng.pick(&[-1i64, 4611686018427387903, -4611686018427387903, 72340172838076673]),
+        }
+    }
+
     fn data_rows(&mut self, n: usize) -> Vec<Vec<i64>> {
         let c = self.c;
-        (0..n).map(|_| (0..c).map(|_| self.rng.range(0, 200)).collect()).collect()
+        (0..n).map(|_| (0..c).map(|_| self.val()).collect()).collect()
     }
 
     fn reg(&mut self) -> usize {
@@ -562,7 +576,7 @@ impl<'a> Gen<'a> {
         }
         let r = self.rng.below(self.rows[d] as u64) as usize;
         let cc = self.rng.below(self.c as u64) as usize;
-        let v = self.rng.range(1, 200);
+        let v = self.val();
         let op = match self.rng.below(3) {
             0 => Op::Set(r, cc, v),
             1 => Op::SetMc(r, cc, v),
@@ -593,10 +607,16 @@ impl<'a> Gen<'a> {
             };
             ROp::Local(d, Op::Cap(r, cap))
         } else if k < 32 {
-            let r = if rows == 0 { 1 + self.rng.below(12) as usize } else { self.rng.below(13) as usize };
+            let r = if self.rng.chance(1, 12) {
+                13 + self.rng.below(28) as usize
+            } else if rows == 0 {
+                1 + self.rng.below(12) as usize
+            } else {
+                self.rng.below(13) as usize
+            };
             ROp::Local(d, Op::Resize(r))
         } else if k < 40 {
-            ROp::Local(d, Op::Fill(self.rng.range(0, 200)))
+            ROp::Local(d, Op::Fill(self.val()))
         } else if k < 70 {
             // mostly valid coordinates, sometimes out of range
             let oob = self.rng.chance(1, 25);
@@ -608,7 +628,7 @@ impl<'a> Gen<'a> {
                 0
             };
             let cc = if oob { c + self.rng.below(2) as usize } else { self.rng.below(c as u64) as usize };
-            let v = self.rng.range(0, 200);
+            let v = self.val();
             if self.rng.chance(1, 2) {
                 ROp::Local(d, Op::Set(r, cc, v))
             } else {
@@ -641,7 +661,7 @@ impl<'a> Gen<'a> {
             ROp::Local(d, Op::Clone)
         } else if k < 98 {
             let cc = if self.rng.chance(1, 25) { c } else { self.rng.below(c as u64) as usize };
-            ROp::Local(d, Op::Imc(cc, self.rng.range(0, 200)))
+            ROp::Local(d, Op::Imc(cc, self.val()))
         } else if k < 102 {
             ROp::Local(d, Op::Reserve(self.rng.below(12) as usize))
         } else if k < 112 {
@@ -671,7 +691,7 @@ impl<'a> Gen<'a> {
                     { let op__ = ROp::Local(d, Op::Cap(self.rng.below(big as u64 + 1) as usize, big + extra)); self.push(op__); }
                 }
                 if self.rng.chance(1, 2) {
-                    { let op__ = ROp::Local(d, Op::Fill(self.rng.range(1, 200))); self.push(op__); }
+                    { let op__ = ROp::Local(d, Op::Fill(self.val())); self.push(op__); }
                 }
                 self.write(d);
                 if self.rng.chance(2, 3) {
@@ -682,7 +702,7 @@ impl<'a> Gen<'a> {
                 { let op__ = ROp::Local(s, Op::From(rs)); self.push(op__); }
                 { let op__ = ROp::CloneFrom(d, s); self.push(op__); }
                 if self.rng.chance(1, 2) {
-                    { let op__ = ROp::Local(d, Op::Fill(self.rng.range(1, 200))); self.push(op__); }
+                    { let op__ = ROp::Local(d, Op::Fill(self.val())); self.push(op__); }
                 }
                 if self.rng.chance(1, 2) {
                     // refresh a second time from a template of another height
@@ -706,7 +726,7 @@ impl<'a> Gen<'a> {
                     };
                     { let op__ = ROp::Local(d, Op::Resize(r)); self.push(op__); }
                     match self.rng.below(3) {
-                        0 => { let op__ = ROp::Local(d, Op::Fill(self.rng.range(1, 200))); self.push(op__); }
+                        0 => { let op__ = ROp::Local(d, Op::Fill(self.val())); self.push(op__); }
                         1 => self.write(d),
                         _ => {}
                     }
@@ -716,11 +736,11 @@ impl<'a> Gen<'a> {
                 // fill, shrink, grow: the re-exposed rows must be default again
                 let n = 2 + self.rng.below(10) as usize;
                 { let op__ = ROp::Local(d, Op::New(n)); self.push(op__); }
-                { let op__ = ROp::Local(d, Op::Fill(self.rng.range(1, 200))); self.push(op__); }
+                { let op__ = ROp::Local(d, Op::Fill(self.val())); self.push(op__); }
                 let small = self.rng.below(n as u64) as usize;
                 { let op__ = ROp::Local(d, Op::Resize(small)); self.push(op__); }
                 if self.rng.chance(1, 3) {
-                    { let op__ = ROp::Local(d, Op::Fill(self.rng.range(1, 200))); self.push(op__); }
+                    { let op__ = ROp::Local(d, Op::Fill(self.val())); self.push(op__); }
                 }
                 { let op__ = ROp::Local(d, Op::Resize(small + 1 + self.rng.below(8) as usize)); self.push(op__); }
                 if self.rng.chance(1, 2) {
@@ -737,7 +757,7 @@ impl<'a> Gen<'a> {
                     r + self.rng.below(6) as usize
                 };
                 { let op__ = ROp::Local(d, Op::FromX(claimed, rs)); self.push(op__); }
-                { let op__ = ROp::Local(d, Op::Fill(self.rng.range(1, 200))); self.push(op__); }
+                { let op__ = ROp::Local(d, Op::Fill(self.val())); self.push(op__); }
                 { let op__ = ROp::Local(d, Op::Resize(r + self.rng.below(4) as usize)); self.push(op__); }
             }
             4 => {
@@ -747,7 +767,7 @@ impl<'a> Gen<'a> {
                     1 => { let op__ = ROp::Local(d, Op::Cap(0, 0)); self.push(op__); }
                     _ => { let op__ = ROp::Local(d, Op::Cap(0, self.rng.below(5) as usize)); self.push(op__); }
                 }
-                { let op__ = ROp::Local(d, Op::Fill(self.rng.range(1, 200))); self.push(op__); }
+                { let op__ = ROp::Local(d, Op::Fill(self.val())); self.push(op__); }
                 { let op__ = ROp::Local(d, Op::Imc(self.rng.below(self.c as u64) as usize, 3)); self.push(op__); }
                 { let op__ = ROp::CloneFrom(s, d); self.push(op__); }
                 { let op__ = ROp::Local(d, Op::Clone); self.push(op__); }
@@ -762,7 +782,7 @@ impl<'a> Gen<'a> {
                 let rs = self.data_rows(n);
                 { let op__ = ROp::Local(d, Op::From(rs.clone())); self.push(op__); }
                 { let op__ = ROp::Local(s, Op::Cap(n + 3, n + 9)); self.push(op__); }
-                { let op__ = ROp::Local(s, Op::Fill(self.rng.range(1, 200))); self.push(op__); }
+                { let op__ = ROp::Local(s, Op::Fill(self.val())); self.push(op__); }
                 { let op__ = ROp::Local(s, Op::Resize(n)); self.push(op__); }
                 for (r, row) in rs.iter().enumerate() {
                     for (k, v) in row.iter().enumerate() {
@@ -789,6 +809,7 @@ fn gen_case(rng: &mut Rng, id: usize, tier: &str) -> String {
     let pat: Vec<bool> = (0..npat).map(|_| rng.chance(1, 2)).collect();
     let mut g = Gen {
         rng,
+        ty,
         c,
         rows: [0; NREG],
         ops: vec![],
